@@ -444,12 +444,15 @@ func (a *forcedArea) Run(line string) string {
 	return "bad-op"
 }
 
+// hugeDepths: depths no machine can allocate; the queue must treat them like any depth larger than the number of tasks.
+var hugeDepths = []int{math.MaxInt, math.MaxInt - 1, math.MaxInt/2 + 1, 1 << 31, 1 << 40}
+
 // genLong: one worker, 17..70 tasks submitted in bursts and released strictly in order, with partial drains between
 // the bursts, so that the backlog grows past 16, 32 and 64 entries after tasks have been taken off its head (growth
 // policies, ring buffers, shifting). With one worker and in-order releases the model's exploration stays small and the
 // quiescent observable is schedule-independent (unbounded depth: every Submit is accepted).
 func genLong(r *hx.Rng, out func(string)) {
-	depth := hx.Pick(r, []int{-1, -1, -1, -1, 100, 64, 17, math.MinInt64})
+	depth := hx.Pick(r, []int{-1, -1, -1, -1, 100, 64, 17, math.MinInt64, hugeDepths[r.Intn(len(hugeDepths))]})
 	inCap := hx.Pick(r, []int{2, 4})
 	mode := hx.Pick(r, []int{0, 0, 1})
 	total := hx.Pick(r, []int{17, 20, 33, 40, 65, 70})
@@ -502,7 +505,8 @@ func (a *forcedArea) Gen(r *hx.Rng, n int, tier string, emit func(string)) {
 			continue
 		}
 		workers := hx.Pick(r, []int{1, 1, 2, 2, 3, 5, 8})
-		depth := hx.Pick(r, []int{-1, 0, 0, 1, 1, 2, 3, 10, 100, workers, workers, workers + 1, math.MinInt64, 65536})
+		depth := hx.Pick(r, []int{-1, 0, 0, 1, 1, 2, 3, 10, 100, workers, workers, workers + 1, math.MinInt64, 65536,
+			hugeDepths[r.Intn(len(hugeDepths))], hugeDepths[r.Intn(len(hugeDepths))]})
 		inCap := hx.Pick(r, []int{1, 1, 2, 3})
 		out("reset")
 		mode := hx.Pick(r, []int{0, 0, 0, 1, 1, 2, 3})
